@@ -162,11 +162,24 @@ fn check_sorted(ctx: &mut Ctx, tab: &Table, got: &Value, integer: bool, tag: &st
     }
 }
 
+/// mostly the small size, now and then a table of hundreds of rows (long runs of equal keys,
+/// several radix passes with carried order)
+fn big_or(rng: &mut Rng, small: usize, one_in: u64, lo: u64, hi: u64) -> usize {
+    if rng.chance(1, one_in) {
+        rng.range(lo, hi) as usize
+    } else {
+        small
+    }
+}
+
 pub fn run(ctx: &mut Ctx) {
     // plaintext Sort: bit-string keys
-    let total = ctx.q(15000, 250000);
+    let total = ctx.q(30000, 300000);
     ctx.cases("plain_sort", total, |ctx, idx| {
-        let n = (idx % 12 + 1) as usize;
+        let n = big_or(&mut ctx.rng, (idx % 12 + 1) as usize, 60, 40, 700);
+        if n > 12 {
+            ctx.count("big_tables", 1);
+        }
         let b = ((idx / 12) % 10 + 1) as usize;
         let tab = gen_table(&mut ctx.rng, n, Some(b), None);
         let c = match sort_context(&tab, false) {
@@ -187,10 +200,13 @@ pub fn run(ctx: &mut Ctx) {
         }
     });
     // SortByIntegerKey: all 11 key types
-    let total = ctx.q(5500, 90000);
+    let total = ctx.q(11000, 110000);
     ctx.cases("integer_sort", total, |ctx, idx| {
         let st = ALL_ST[(idx % 11) as usize];
-        let n = ((idx / 11) % 12 + 1) as usize;
+        let n = big_or(&mut ctx.rng, ((idx / 11) % 12 + 1) as usize, 60, 40, 700);
+        if n > 12 {
+            ctx.count("big_tables", 1);
+        }
         let tab = gen_table(&mut ctx.rng, n, None, Some(st));
         let c = match sort_context(&tab, true) {
             Ok(c) => c,
@@ -207,7 +223,7 @@ pub fn run(ctx: &mut Ctx) {
         ctx.case_done(mix(&[idx, 2, crate::rng::fnv(format!("{}", tab.t).as_bytes())]), n >= 2);
     });
     // permutations: apply then apply-inverse restores the array
-    let total = ctx.q(6000, 100000);
+    let total = ctx.q(12000, 120000);
     ctx.cases("permutations", total, |ctx, idx| {
         // all permutations for n <= 5 (by index), random ones up to 12
         let (n, perm): (usize, Vec<u128>) = if idx < 153 {
@@ -235,7 +251,8 @@ pub fn run(ctx: &mut Ctx) {
             }
             (n, p)
         } else {
-            let n = ctx.rng.range(1, 12) as usize;
+            let small = ctx.rng.range(1, 12) as usize;
+            let n = big_or(&mut ctx.rng, small, 60, 40, 700);
             let mut p: Vec<u128> = (0..n as u128).collect();
             ctx.rng.shuffle(&mut p);
             (n, p)
@@ -292,10 +309,14 @@ pub fn run(ctx: &mut Ctx) {
         ctx.case_done(mix(&[3, n as u64, crate::rng::fnv(format!("{:?}", perm).as_bytes())]), n >= 2);
     });
     // compiled secure sort / permutation = plaintext
-    let total = ctx.q(400, 6000);
+    let total = ctx.q(800, 8000);
     ctx.cases("compiled", total, |ctx, idx| {
         let kind = idx % 4;
-        let n = ctx.rng.range(1, 8) as usize;
+        let small = ctx.rng.range(1, 8) as usize;
+        let n = big_or(&mut ctx.rng, small, 40, 24, 160);
+        if n > 8 {
+            ctx.count("big_compiled", 1);
+        }
         let (c, inputs, types, label): (Context, Vec<Value>, Vec<Type>, String) = match kind {
             0 | 1 => {
                 let b = ctx.rng.range(1, 7) as usize;
